@@ -240,9 +240,20 @@ func RunCase(c Case, p string) (res common.Result) {
 			} else {
 				matched := t3.judgeRecovery(e3.w, e3.fs, &v3, where3)
 				checkDir(e3.fs, &v3, where3)
-				if len(v3.fails) == 0 {
-					usability(e3, t3, &v3, where3)
-				} else if !matched {
+				if matched {
+					// directory/format verdicts of other properties do not invalidate the model:
+					// the usability script still runs and contributes its own verdicts
+					var vu verdicts
+					usability(e3, t3, &vu, where3)
+					for prop, f := range vu.fails {
+						if _, ok := v3.fails[prop]; !ok {
+							if v3.fails == nil {
+								v3.fails = map[string]*common.Failure{}
+							}
+							v3.fails[prop] = f
+						}
+					}
+				} else {
 					// the recovered contents are already wrong (other properties' verdicts); C03 still asks
 					// whether the WAL at least accepts an append at its own LastIndex+1
 					if last, err := e3.w.LastIndex(); err == nil {
